@@ -77,6 +77,32 @@ func run(c Case) *vkit.Result {
 	return res
 }
 
+// panicFrame: the library frame a panic passed through first; when the panic was raised outside the library (a dependency the decoder
+// hands the input to), the raising function is appended, so that the fingerprint names one root cause.
+func panicFrame(stack string) string {
+	frame := vkit.FirstLibFrame(stack)
+	lines := strings.Split(stack, "\n")
+	for i, l := range lines {
+		if !strings.HasPrefix(l, "panic(") {
+			continue
+		}
+		for _, o := range lines[i+1:] {
+			if strings.HasPrefix(o, "\t") || strings.HasPrefix(o, "runtime.") || strings.TrimSpace(o) == "" {
+				continue
+			}
+			if j := strings.LastIndex(o, "("); j > 0 {
+				o = o[:j]
+			}
+			if !strings.HasPrefix(o, "github.com/zitadel/oidc/v3/") {
+				frame += "<-" + o
+			}
+			break
+		}
+		break
+	}
+	return frame
+}
+
 // guarded runs fn and converts a panic into (value, stack).
 func guarded(fn func()) (pan any, stack string) {
 	defer func() {
@@ -654,7 +680,7 @@ func judgeDecode(res *vkit.Result, typ string, doc []byte, ctx string) map[strin
 		}
 	})
 	if pan != nil {
-		frame := vkit.FirstLibFrame(stack)
+		frame := panicFrame(stack)
 		res.Fail("C12:panic@"+frame, "decoding %s into %s panicked: %v", clip(doc), typ, pan)
 		res.Label(ctx + ":panic")
 		info["outcome"] = "panic@" + frame
@@ -770,7 +796,7 @@ func judgeText(res *vkit.Result, typ string, doc []byte, ctx string, info map[st
 		err  error
 	)
 	if pan, stack := guarded(func() { sval, err = decodeScalar(typ, doc) }); pan != nil {
-		frame := vkit.FirstLibFrame(stack)
+		frame := panicFrame(stack)
 		res.Fail("C12:panic@"+frame, "decoding text %q into %s panicked: %v", clip(doc), typ, pan)
 		res.Label(ctx + ":panic")
 		info["outcome"] = "panic@" + frame
